@@ -9,7 +9,9 @@ BATCH = 500
 
 
 def _text(l):
-    mb = lambda t: t.replace("<MB2>", "\u00e9").replace("<MB3>", "\u65e5").replace("<NUL>", "\x00").replace("<NL>", "\n").replace("<TAB>", "\t")
+    if l.get("gen"):
+        return "<generated %s size %s>" % (l["gen"], l["size"])
+    mb = lambda t: t.replace("<MB2>", "\u00e9").replace("<MB3>", "\u65e5").replace("<NUL>", "\x00").replace("<NL>", "\n").replace("<TAB>", "\t").replace("<KEL>", "\u212a").replace("<IDOT>", "\u0130")
     body = l["sep"].join(mb(t) for t in l["toks"])
     ch = mb(l.get("chain", ""))
     return ch * (min(l.get("n", 0), (4096 - len(body.encode())) // max(len(ch.encode()), 1)) if l.get("n", 0) else 0) + body
